@@ -63,6 +63,81 @@ fn collect_docs(resolve: &Resolve, world: WorldId) -> Vec<Value> {
     out
 }
 
+fn snake(name: &str) -> String {
+    // heck's to_snake_case on WIT kebab identifiers: words joined by `_`, lower-cased
+    name.split('-').map(|w| w.to_lowercase()).collect::<Vec<_>>().join("_")
+}
+
+/// The same world with extra doc lines that mention REAL items of the world (types, functions) as code spans: bare,
+/// inside inline / full-reference / collapsed / shortcut links (with their definition lines), next to autolinks and
+/// inside emphasised link text.  Only `///` lines are added, so the world stays valid.
+fn mention_variant(wit: &str, resolve: &Resolve, world: WorldId, rng: &mut Rng) -> Option<String> {
+    let w = &resolve.worlds[world];
+    let mut names: Vec<String> = vec![];
+    for item in w.imports.values().chain(w.exports.values()) {
+        match item {
+            WorldItem::Interface { id, .. } => {
+                let iface = &resolve.interfaces[*id];
+                names.extend(iface.types.keys().cloned());
+                names.extend(iface.functions.keys().filter(|f| !f.contains('[')).cloned());
+            }
+            WorldItem::Function(f) => {
+                if !f.name.contains('[') {
+                    names.push(f.name.clone());
+                }
+            }
+            WorldItem::Type { id, .. } => names.extend(resolve.types[*id].name.clone()),
+        }
+    }
+    names.sort();
+    names.dedup();
+    names.retain(|n| n.chars().all(|c| c.is_ascii_alphanumeric() || c == '-'));
+    if names.is_empty() {
+        return None;
+    }
+    let lines: Vec<&str> = wit.lines().collect();
+    let mut out: Vec<String> = vec![];
+    let mut lbl = 0;
+    for (i, l) in lines.iter().enumerate() {
+        out.push(l.to_string());
+        let is_doc = l.trim_start().starts_with("///");
+        let next_doc = lines.get(i + 1).map(|n| n.trim_start().starts_with("///")).unwrap_or(false);
+        if is_doc && !next_doc && rng.chance(2, 3) {
+            let ind: String = l.chars().take_while(|c| c.is_whitespace()).collect();
+            let n = rng.pick(&names).clone();
+            let a = snake(&n);
+            let m = rng.pick(&names).clone();
+            let am = snake(&m);
+            lbl += 1;
+            let (text, defs): (String, Vec<String>) = match rng.below(8) {
+                0 => (format!("mentions `{n}` and `{m}` as code"), vec![]),
+                1 => (format!("inline [`{n}`](#{a}) link"), vec![]),
+                2 => (format!("full reference [`{n}`][lbl{lbl}] link"), vec![format!("[lbl{lbl}]: #{a}")]),
+                3 => (format!("collapsed [`{n}`][] link"), vec![format!("[`{n}`]: #{a}")]),
+                4 => (format!("shortcut [`{n}`] link and `{m}`"), vec![format!("[`{n}`]: #{a}")]),
+                5 => (format!("autolink <https://example.com/{n}> then `{n}`"), vec![]),
+                6 => (format!("emphasis in link text [*see `{n}`* and **`{m}`**](#{a})"), vec![]),
+                _ => (format!("two kinds [`{n}`][L{lbl}] and [`{m}`]"), vec![format!("[L{lbl}]: #{a}"), format!("[`{m}`]: #{am}")]),
+            };
+            out.push(format!("{ind}/// {text}"));
+            if !defs.is_empty() {
+                out.push(format!("{ind}///"));
+                for d in defs {
+                    out.push(format!("{ind}/// {d}"));
+                }
+            }
+        }
+    }
+    Some(out.join("\n") + "\n")
+}
+
+fn neutralise_fences(wit: &str) -> String {
+    wit.lines().map(|l| if l.trim_start().starts_with("///") { l.replace("```", "'''") } else { l.to_string() }).collect::<Vec<_>>().join("\n")
+}
+
+/// Directed world: every link kind around code spans naming real items; runs at every seed.
+const LINKS_WORLD: &str = "package d:links;\n\n/// See `rec` and `run`.\n/// Inline [`rec`](#rec), full [`rec`][lbl], collapsed [`run`][] and shortcut [`res`].\n/// Auto <https://example.com/rec> and [*emph `rec`* text **`run`**](#rec).\n///\n/// [lbl]: #rec\n/// [`run`]: #run\n/// [`res`]: #res\ninterface i {\n  /// A record mentioning [`res`] and itself [`rec`][].\n  ///\n  /// [`rec`]: #rec\n  record rec {\n    /// field doc with [`res`][lbl] and `rec`\n    a: u32,\n  }\n  /// resource doc [`rec`]\n  resource res {\n    constructor();\n  }\n  /// Function doc: [`rec`][lbl], `run`, [`run`]\n  run: func(a: rec) -> rec;\n}\n\n/// World doc [`rec`] and [`w`](#w)\nworld w {\n  import i;\n  export i;\n  /// world function [`rec`][] `go`\n  export go: func(a: u32);\n}\n";
+
 fn main() {
     let args = Args::parse();
     let seed = args.seed();
@@ -128,6 +203,13 @@ fn main() {
             rep.count("random_valid_worlds");
             rep.count_n("doc_comments_generated", w.docs.len() as u64);
             run(&mut rep, &format!("random:{i}"), &w.wit, false);
+            // real item names as code spans in every link kind (no fences, so the HTML oracles apply)
+            if let Ok((r2, w2)) = witgen::parse(&w.wit) {
+                if let Some(m) = mention_variant(&neutralise_fences(&w.wit), &r2, w2, &mut rng) {
+                    rep.count("mention_variants");
+                    run(&mut rep, &format!("random:{i}:mentions"), &m, true);
+                }
+            }
             // the same world with code fences in doc comments neutralised: an unbalanced ``` in a doc comment swallows the
             // rest of the document (the user's markdown, not the generator's), which would hide the link oracles
             if w.wit.contains("```") {
@@ -136,6 +218,10 @@ fn main() {
             }
         }
         rep.count_n("random_worlds_discarded_invalid", discarded as u64);
+        if shard == 0 {
+            rep.count("directed_worlds");
+            run(&mut rep, "directed:links", LINKS_WORLD, false);
+        }
         // corpus files carry real-world doc comments
         for (ci, c) in genrun::corpus(&genrun::repo_root()).iter().enumerate() {
             if !workload::mine(ci, shard, shards) || !c.path.is_file() {
